@@ -122,6 +122,32 @@ def new_node(kind='plain'):
     return N.RpcNode('http://node.invalid:8732')
 
 
+class patched_sleep:
+    """Replace the sleep function of pytezos.rpc.node by `rec` for the duration of a native run, whichever way the module reaches it:
+    `from time import sleep` (module attribute `sleep`) or `import time` (`time.sleep`).  How the function is imported is not part of
+    the property; the delays are."""
+
+    def __init__(self, N, rec):
+        self.N, self.rec = N, rec
+
+    def __enter__(self):
+        import time
+        self.old_time = time.sleep
+        self.had = hasattr(self.N, 'sleep')
+        self.old = getattr(self.N, 'sleep', None)
+        time.sleep = self.rec
+        if self.had:
+            self.N.sleep = self.rec
+        return self
+
+    def __exit__(self, *exc):
+        import time
+        time.sleep = self.old_time
+        if self.had:
+            self.N.sleep = self.old
+        return False
+
+
 def run_real(seq, kwargs=None, method='GET', via=None, node=None):
     """Drive the real RpcNode.request (or, with via='get'/'post'/'put'/'delete', the wrapper of that name) with the scripted
     sequence, on a fresh node or on the given node object."""
@@ -146,9 +172,9 @@ def run_real(seq, kwargs=None, method='GET', via=None, node=None):
     def fake_sleep(d):
         sleeps.append(d)
 
-    old_req, old_sleep = requests.request, N.sleep
+    old_req = requests.request
     requests.request = lambda *a, **kw: fake_request(**dict(kw, **({'_positional': a} if a else {})))
-    N.sleep = fake_sleep
+    ps = patched_sleep(N, fake_sleep).__enter__()
     try:
         if node is None:
             node = new_node()
@@ -162,7 +188,8 @@ def run_real(seq, kwargs=None, method='GET', via=None, node=None):
         except Exception as x:  # noqa
             out = ('raise', x)
     finally:
-        requests.request, N.sleep = old_req, old_sleep
+        requests.request = old_req
+        ps.__exit__()
     return out, calls, sleeps, served
 
 
